@@ -177,7 +177,7 @@ P("C02", "validation modes accept, reject and repair malformed input correctly",
   runs=[{"build": "asan", "name": "default=check_validity", "flags": ["-DST_DEFAULT_VALIDATION=ST::check_validity", "-DVRT_EXPECT_DEFAULT=2"]},
         {"build": "asan", "name": "default=substitute_invalid", "flags": ["-DST_DEFAULT_VALIDATION=ST::substitute_invalid", "-DVRT_EXPECT_DEFAULT=1"]},
         {"build": "asan", "name": "default=assume_valid", "flags": ["-DST_DEFAULT_VALIDATION=ST::assume_valid", "-DVRT_EXPECT_DEFAULT=0"]},
-        FUZZ(400000, 48, _FZ_CONV_SEEDS, _FZ_CONV_TOKENS)],
+        FUZZ(150000, 48, _FZ_CONV_SEEDS, _FZ_CONV_TOKENS)],
   level_text=("runtime monitoring: malformed and tolerated-form inputs in each source encoding (exhaustive over short strings of a branch-covering alphabet, embedded in valid text of every width class, "
               "every truncation, seeded mutations) run through every reading conversion in all three modes under ASan+UBSan; throw/no-throw and the repaired units are compared with the reference decoder of the statement, "
               "repaired output is re-validated, and the build is repeated for the three ST_DEFAULT_VALIDATION settings with mode-less calls compared against the configured mode"),
@@ -190,7 +190,7 @@ P("C02", "validation modes accept, reject and repair malformed input correctly",
   dbits={"quick": 23, "thorough": 26})
 
 P("C03", "conversions are total and memory-safe on arbitrary input", "conv",
-  runs=[ASAN, MEMCHECK, FUZZ(400000, 96, _FZ_CONV_SEEDS, _FZ_CONV_TOKENS)],
+  runs=[ASAN, MEMCHECK, FUZZ(150000, 96, _FZ_CONV_SEEDS, _FZ_CONV_TOKENS)],
   level_text=("runtime monitoring: arbitrary unit sequences (the C02 malformed sets, every truncation of valid text, pure garbage of length 0..64, lead-byte-dense tails, empty and (nullptr,0), inputs of 64 Ki..1 Mi units) "
               "are handed to every conversion in exact-size heap blocks without terminator under ASan+UBSan: a read past the input or a write past the result lands in a red zone, any abort/assertion/crash/hang/foreign exception "
               "is reported through the driver, and size(), the terminator and every unit of the result are compared with the reference transcoding under the same mode (so an unwritten unit shows as a mismatch)"),
